@@ -1,1 +1,567 @@
-pub fn placeholder() {}
+//! Deterministic generators of well-formed classes (as `SClass` models) for the class-file properties.
+//!
+//! Nothing here is random: every function enumerates a small explicit space, simplest first.
+
+use crate::asm::{AttrOrder, Encoding, Pad, PoolOrder};
+use crate::model::*;
+
+pub fn js(s: &str) -> JS {
+	JS::new(s)
+}
+
+pub fn skeleton(name: &str) -> SClass {
+	SClass { version: (61, 0), access: 0x0021, this_class: js(name), super_class: Some(js("java/lang/Object")), ..Default::default() }
+}
+
+pub fn mref(owner: &str, name: &str, desc: &str) -> SMemberRef {
+	SMemberRef { owner: js(owner), name: js(name), desc: js(desc) }
+}
+
+pub fn method_with(name: &str, desc: &str, insns: Vec<SInsn>) -> SMethod {
+	SMethod { access: 0x0009, name: js(name), desc: js(desc), code: Some(SCode { max_stack: 10, max_locals: 300, insns, ..Default::default() }), ..Default::default() }
+}
+
+pub fn class_with_method(name: &str, insns: Vec<SInsn>) -> SClass {
+	let mut c = skeleton(name);
+	c.methods.push(method_with("m", "()V", insns));
+	c
+}
+
+pub const RETURN: SInsn = SInsn::Simple(op::RETURN);
+
+pub fn handles() -> Vec<SHandle> {
+	vec![
+		SHandle { kind: 1, member: mref("p/Own", "f", "I"), interface: false },
+		SHandle { kind: 2, member: mref("p/Own", "sf", "Lp/T;"), interface: false },
+		SHandle { kind: 3, member: mref("p/Own", "f", "I"), interface: false },
+		SHandle { kind: 4, member: mref("p/Own", "sf", "[J"), interface: false },
+		SHandle { kind: 5, member: mref("p/Own", "v", "()V"), interface: false },
+		SHandle { kind: 6, member: mref("p/Own", "s", "(I)I"), interface: false },
+		SHandle { kind: 6, member: mref("p/Itf", "s", "(I)I"), interface: true },
+		SHandle { kind: 7, member: mref("p/Own", "sp", "()V"), interface: false },
+		SHandle { kind: 7, member: mref("p/Itf", "sp", "()V"), interface: true },
+		SHandle { kind: 8, member: mref("p/Own", "<init>", "()V"), interface: false },
+		SHandle { kind: 9, member: mref("p/Itf", "i", "(Lp/T;)Lp/T;"), interface: true },
+	]
+}
+
+pub fn bootstrap(depth: usize) -> SBootstrap {
+	let mut args = vec![SConst::Int(7), SConst::Str(js("arg")), SConst::Class(js("p/T")), SConst::MethodType(js("(I)V")), SConst::Handle(handles()[5].clone()), SConst::Long(1 << 40), SConst::Double(1.5f64.to_bits()), SConst::Float(2.5f32.to_bits())];
+	if depth > 0 {
+		args.push(SConst::Dynamic(Box::new(SDynamic { bootstrap: bootstrap(depth - 1), name: js("nested"), desc: js("Lp/T;") })));
+	}
+	SBootstrap { handle: SHandle { kind: 6, member: mref("p/Boot", "bsm", "(Ljava/lang/invoke/MethodHandles$Lookup;Ljava/lang/String;Ljava/lang/Class;)Ljava/lang/Object;"), interface: false }, args }
+}
+
+pub fn constants() -> Vec<SConst> {
+	let mut v = vec![
+		SConst::Int(0), SConst::Int(i32::MIN), SConst::Int(i32::MAX), SConst::Int(-1),
+		SConst::Float(0f32.to_bits()), SConst::Float(f32::NAN.to_bits()), SConst::Float(0x7fc00001), SConst::Float((-0f32).to_bits()), SConst::Float(f32::INFINITY.to_bits()),
+		SConst::Long(0), SConst::Long(i64::MIN), SConst::Long(i64::MAX),
+		SConst::Double(0f64.to_bits()), SConst::Double(f64::NAN.to_bits()), SConst::Double(0x7ff8000000000001), SConst::Double((-0f64).to_bits()),
+		SConst::Class(js("p/T")), SConst::Class(js("[Lp/T;")), SConst::Class(js("[[I")),
+		SConst::Str(js("")), SConst::Str(js("hello")), SConst::Str(JS(vec![0])), SConst::Str(JS(vec![0x7f, 0x80, 0x7ff, 0x800, 0xffff])), SConst::Str(JS(vec![0xd83d, 0xde00])), SConst::Str(JS(vec![0xd800])), SConst::Str(JS(vec![0xdc00, 0x41])),
+		SConst::MethodType(js("()V")), SConst::MethodType(js("(Lp/T;[I)Lp/T;")),
+		SConst::Dynamic(Box::new(SDynamic { bootstrap: bootstrap(0), name: js("k"), desc: js("I") })),
+		SConst::Dynamic(Box::new(SDynamic { bootstrap: bootstrap(1), name: js("k"), desc: js("Lp/T;") })),
+		SConst::Dynamic(Box::new(SDynamic { bootstrap: bootstrap(0), name: js("k2"), desc: js("J") })),
+		SConst::Dynamic(Box::new(SDynamic { bootstrap: bootstrap(2), name: js("k3"), desc: js("D") })),
+	];
+	for h in handles() {
+		v.push(SConst::Handle(h));
+	}
+	v
+}
+
+const LV_KINDS: [LvKind; 5] = [LvKind::I, LvKind::L, LvKind::F, LvKind::D, LvKind::A];
+
+/// Every instruction shape with boundary operands. Branch targets refer to `[sample, return]`
+/// (index 0 = the sample itself, 1 = the return).
+pub fn insn_samples() -> Vec<SInsn> {
+	let mut v = Vec::new();
+	for o in 0..=255u8 {
+		if op::is_simple(o) {
+			v.push(SInsn::Simple(o));
+		}
+	}
+	for x in [i8::MIN, -1, 0, 1, i8::MAX] {
+		v.push(SInsn::BiPush(x));
+	}
+	for x in [i16::MIN, -129, -128, -1, 0, 127, 128, 255, 256, i16::MAX] {
+		v.push(SInsn::SiPush(x));
+	}
+	for c in constants() {
+		v.push(SInsn::Ldc(c));
+	}
+	for k in LV_KINDS {
+		for x in [0u16, 1, 2, 3, 4, 255, 256, 65535] {
+			v.push(SInsn::Load(k, x));
+			v.push(SInsn::Store(k, x));
+		}
+	}
+	for x in [0u16, 255, 256, 65535] {
+		for d in [i16::MIN, -129, -128, -1, 0, 1, 127, 128, i16::MAX] {
+			v.push(SInsn::IInc(x, d));
+		}
+		v.push(SInsn::Ret(x));
+	}
+	for o in (0x99..=0xa8u8).chain([op::IFNULL, op::IFNONNULL]) {
+		v.push(SInsn::Branch(o, 0));
+		v.push(SInsn::Branch(o, 1));
+	}
+	for n in 0..=3usize {
+		for low in [i32::MIN, -1, 0, 5, i32::MAX - 3] {
+			if n == 0 {
+				continue; // a tableswitch has at least one target (low <= high)
+			}
+			v.push(SInsn::TableSwitch { default: 1, low, targets: (0..n).map(|i| (i % 2) as Idx).collect() });
+		}
+		let keys = [i32::MIN, -7, 0, i32::MAX];
+		v.push(SInsn::LookupSwitch { default: 0, pairs: (0..n).map(|i| (keys[i], ((i + 1) % 2) as Idx)).collect() });
+	}
+	for o in [op::GETSTATIC, op::PUTSTATIC, op::GETFIELD, op::PUTFIELD] {
+		v.push(SInsn::Field(o, mref("p/Own", "f", "I")));
+		v.push(SInsn::Field(o, mref("p/Own$In", "g$1", "[[Lp/T;")));
+	}
+	v.push(SInsn::Invoke(op::INVOKEVIRTUAL, mref("p/Own", "v", "(IJ)V"), false));
+	v.push(SInsn::Invoke(op::INVOKEVIRTUAL, mref("[Lp/T;", "clone", "()Ljava/lang/Object;"), false));
+	v.push(SInsn::Invoke(op::INVOKESPECIAL, mref("p/Own", "<init>", "()V"), false));
+	v.push(SInsn::Invoke(op::INVOKESPECIAL, mref("p/Itf", "d", "()V"), true));
+	v.push(SInsn::Invoke(op::INVOKESTATIC, mref("p/Own", "s", "(D[D)D"), false));
+	v.push(SInsn::Invoke(op::INVOKESTATIC, mref("p/Itf", "s", "()V"), true));
+	v.push(SInsn::Invoke(op::INVOKEINTERFACE, mref("p/Itf", "i", "()V"), true));
+	v.push(SInsn::Invoke(op::INVOKEINTERFACE, mref("p/Itf", "i", "(JD[JLp/T;I)I"), true));
+	v.push(SInsn::Invoke(op::INVOKEINTERFACE, mref("p/Itf", "big", &format!("({})V", "J".repeat(127))), true));
+	v.push(SInsn::InvokeDynamic(SDynamic { bootstrap: bootstrap(0), name: js("run"), desc: js("()Ljava/lang/Runnable;") }));
+	v.push(SInsn::InvokeDynamic(SDynamic { bootstrap: bootstrap(2), name: js("apply"), desc: js("(Lp/T;I)Lp/F;") }));
+	for c in ["p/T", "[Lp/T;", "[[I", "x"] {
+		if !c.starts_with('[') {
+			v.push(SInsn::New(js(c)));
+		}
+		v.push(SInsn::ANewArray(js(c)));
+		v.push(SInsn::CheckCast(js(c)));
+		v.push(SInsn::InstanceOf(js(c)));
+	}
+	for t in 4..=11u8 {
+		v.push(SInsn::NewArray(t));
+	}
+	v.push(SInsn::MultiANewArray(js("[[I"), 1));
+	v.push(SInsn::MultiANewArray(js("[[I"), 2));
+	v.push(SInsn::MultiANewArray(js(&format!("{}I", "[".repeat(255))), 255));
+	v
+}
+
+/// One symbol per decoding arm of a class reader, for the shape sweep. Branching symbols take a target.
+#[derive(Clone, Debug)]
+pub enum Sym {
+	Fixed(SInsn),
+	Branch(u8),
+	Table,
+	Lookup,
+}
+
+pub fn shape_alphabet() -> Vec<Sym> {
+	let f = Sym::Fixed;
+	vec![
+		f(SInsn::Simple(op::NOP)),
+		f(SInsn::BiPush(-3)),
+		f(SInsn::SiPush(300)),
+		f(SInsn::Ldc(SConst::Int(77))),
+		f(SInsn::Ldc(SConst::Long(77))),
+		f(SInsn::Ldc(SConst::Str(js("s")))),
+		f(SInsn::Load(LvKind::I, 1)),
+		f(SInsn::Load(LvKind::A, 9)),
+		f(SInsn::Load(LvKind::D, 300)),
+		f(SInsn::Store(LvKind::L, 2)),
+		f(SInsn::Store(LvKind::F, 9)),
+		f(SInsn::IInc(1, 1)),
+		f(SInsn::IInc(300, 300)),
+		f(SInsn::Ret(2)),
+		f(SInsn::Field(op::GETFIELD, mref("p/Own", "f", "I"))),
+		f(SInsn::Invoke(op::INVOKEVIRTUAL, mref("p/Own", "v", "()V"), false)),
+		f(SInsn::Invoke(op::INVOKESTATIC, mref("p/Itf", "s", "()V"), true)),
+		f(SInsn::Invoke(op::INVOKEINTERFACE, mref("p/Itf", "i", "(J)V"), true)),
+		f(SInsn::InvokeDynamic(SDynamic { bootstrap: bootstrap(0), name: js("run"), desc: js("()V") })),
+		f(SInsn::New(js("p/T"))),
+		f(SInsn::NewArray(10)),
+		f(SInsn::MultiANewArray(js("[[I"), 2)),
+		Sym::Branch(op::IFEQ),
+		Sym::Branch(op::IF_ACMPNE),
+		Sym::Branch(op::IFNULL),
+		Sym::Branch(op::GOTO),
+		Sym::Branch(op::JSR),
+		Sym::Table,
+		Sym::Lookup,
+	]
+}
+
+/// All instruction sequences of exactly `len` symbols (plus a trailing `return`), every branching
+/// symbol with every target in `0..=len`. Addressed by index for parallel enumeration.
+pub struct ShapeSpace {
+	/// expanded symbols: each is a closure-free description (symbol index, target)
+	pub items: Vec<(usize, Option<Idx>)>,
+	pub alphabet: Vec<Sym>,
+	pub len: usize,
+}
+
+impl ShapeSpace {
+	pub fn new(len: usize) -> ShapeSpace {
+		let alphabet = shape_alphabet();
+		let mut items = Vec::new();
+		for (i, s) in alphabet.iter().enumerate() {
+			match s {
+				Sym::Fixed(_) => items.push((i, None)),
+				_ => {
+					for t in 0..=len as Idx {
+						items.push((i, Some(t)));
+					}
+				},
+			}
+		}
+		ShapeSpace { items, alphabet, len }
+	}
+	pub fn count(&self) -> u64 {
+		(self.items.len() as u64).pow(self.len as u32)
+	}
+	pub fn nth(&self, mut idx: u64) -> Vec<SInsn> {
+		let k = self.items.len() as u64;
+		let mut digits = vec![0usize; self.len];
+		for i in (0..self.len).rev() {
+			digits[i] = (idx % k) as usize;
+			idx /= k;
+		}
+		let mut out = Vec::with_capacity(self.len + 1);
+		for d in digits {
+			let (si, t) = self.items[d];
+			out.push(match (&self.alphabet[si], t) {
+				(Sym::Fixed(i), _) => i.clone(),
+				(Sym::Branch(o), Some(t)) => SInsn::Branch(*o, t),
+				(Sym::Table, Some(t)) => SInsn::TableSwitch { default: t, low: -1, targets: vec![0, t] },
+				(Sym::Lookup, Some(t)) => SInsn::LookupSwitch { default: 0, pairs: vec![(-5, t), (9, self.len as Idx)] },
+				_ => SInsn::Simple(op::NOP),
+			});
+		}
+		out.push(RETURN);
+		out
+	}
+}
+
+/// A method with one instance of every variable-encoding instruction (8 sites), for the encoding product.
+pub fn variable_form_method() -> Vec<SInsn> {
+	vec![
+		SInsn::Ldc(SConst::Int(123456)),        // site 0: ldc / ldc_w
+		SInsn::Load(LvKind::I, 2),              // site 1: iload_2 / iload 2 / wide iload 2
+		SInsn::Store(LvKind::A, 7),             // site 2: astore 7 / wide astore 7
+		SInsn::IInc(2, -5),                     // site 3: iinc / wide iinc
+		SInsn::Branch(op::GOTO, 6),             // site 4: goto / goto_w (forward)
+		SInsn::Ret(3),                          // site 5: ret / wide ret
+		SInsn::Branch(op::JSR, 0),              // site 6: jsr / jsr_w (backward)
+		SInsn::Branch(op::GOTO, 1),             // site 7: goto / goto_w (backward)
+		SInsn::Branch(op::IFEQ, 0),
+		RETURN,
+	]
+}
+
+fn ann(name: &str, pairs: Vec<(&str, SElementValue)>) -> SAnnotation {
+	SAnnotation { type_name: js(name), pairs: pairs.into_iter().map(|(n, v)| (js(n), v)).collect() }
+}
+
+/// element values of every tag, nested to `depth`
+pub fn element_values(depth: usize) -> Vec<SElementValue> {
+	let mut v = vec![
+		SElementValue::Const(b'B', SConst::Int(-128)),
+		SElementValue::Const(b'C', SConst::Int(0xffff)),
+		SElementValue::Const(b'D', SConst::Double(2.5f64.to_bits())),
+		SElementValue::Const(b'F', SConst::Float(f32::NAN.to_bits())),
+		SElementValue::Const(b'I', SConst::Int(i32::MIN)),
+		SElementValue::Const(b'J', SConst::Long(i64::MAX)),
+		SElementValue::Const(b'S', SConst::Int(-32768)),
+		SElementValue::Const(b'Z', SConst::Int(1)),
+		SElementValue::Str(js("sé")),
+		SElementValue::Enum { type_name: js("Lp/E;"), const_name: js("K") },
+		SElementValue::Class(js("Lp/T;")),
+		SElementValue::Class(js("V")),
+		SElementValue::Class(js("[I")),
+		SElementValue::Array(vec![]),
+	];
+	if depth > 0 {
+		let inner = element_values(depth - 1);
+		v.push(SElementValue::Annotation(ann("Lp/Inner;", inner.iter().enumerate().map(|(i, e)| (["a", "b", "c"][i % 3], e.clone())).take(4).collect())));
+		v.push(SElementValue::Annotation(ann("Lp/Empty;", vec![])));
+		v.push(SElementValue::Array(inner.iter().take(5).cloned().collect()));
+		v.push(SElementValue::Array(vec![SElementValue::Array(vec![SElementValue::Str(js("x"))])]));
+	}
+	v
+}
+
+pub fn annotations(n: usize) -> Vec<SAnnotation> {
+	let ev = element_values(2);
+	(0..n).map(|i| ann(&format!("Lp/A{i};"), ev.iter().enumerate().filter(|(k, _)| k % (i + 1) == 0).map(|(k, e)| (["v", "w", "x", "y"][k % 4], e.clone())).collect())).collect()
+}
+
+fn tann(target: STarget, path: Vec<(u8, u8)>) -> STypeAnnotation {
+	STypeAnnotation { target, path, annotation: ann("Lp/TA;", vec![("v", SElementValue::Const(b'I', SConst::Int(1)))]) }
+}
+
+const PATHS: &[&[(u8, u8)]] = &[&[], &[(0, 0)], &[(1, 0)], &[(2, 0)], &[(3, 0)], &[(3, 255)], &[(0, 0), (0, 0), (3, 1), (2, 0), (1, 0)]];
+
+pub fn class_type_annotations() -> Vec<STypeAnnotation> {
+	let mut v = Vec::new();
+	for (i, t) in [
+		STarget::TypeParameter { target_type: 0x00, index: 0 }, STarget::TypeParameter { target_type: 0x00, index: 255 },
+		STarget::Supertype(65535), STarget::Supertype(0), STarget::Supertype(1),
+		STarget::TypeParameterBound { target_type: 0x11, param: 0, bound: 1 }, STarget::TypeParameterBound { target_type: 0x11, param: 255, bound: 255 },
+	].into_iter().enumerate() {
+		v.push(tann(t, PATHS[i % PATHS.len()].to_vec()));
+	}
+	v
+}
+
+pub fn field_type_annotations() -> Vec<STypeAnnotation> {
+	PATHS.iter().map(|p| tann(STarget::Empty(0x13), p.to_vec())).collect()
+}
+
+pub fn method_type_annotations() -> Vec<STypeAnnotation> {
+	let mut v = Vec::new();
+	for (i, t) in [
+		STarget::TypeParameter { target_type: 0x01, index: 0 }, STarget::TypeParameterBound { target_type: 0x12, param: 1, bound: 0 },
+		STarget::Empty(0x14), STarget::Empty(0x15), STarget::FormalParameter(0), STarget::FormalParameter(255), STarget::Throws(0), STarget::Throws(65535),
+	].into_iter().enumerate() {
+		v.push(tann(t, PATHS[i % PATHS.len()].to_vec()));
+	}
+	v
+}
+
+/// `n` = number of instructions of the method the annotations sit in
+pub fn code_type_annotations(n: Idx) -> Vec<STypeAnnotation> {
+	let mut v = Vec::new();
+	let last = n - 1;
+	let targets = vec![
+		STarget::LocalVar { target_type: 0x40, table: vec![] },
+		STarget::LocalVar { target_type: 0x40, table: vec![(0, n, 0), (1, last, 300)] },
+		STarget::LocalVar { target_type: 0x41, table: vec![(last, n, 65535)] },
+		STarget::Catch(0), STarget::Catch(65535),
+		STarget::Offset { target_type: 0x43, at: 0 }, STarget::Offset { target_type: 0x44, at: last }, STarget::Offset { target_type: 0x45, at: 1 }, STarget::Offset { target_type: 0x46, at: last },
+		STarget::TypeArgument { target_type: 0x47, at: 0, index: 0 }, STarget::TypeArgument { target_type: 0x48, at: 1, index: 255 },
+		STarget::TypeArgument { target_type: 0x49, at: last, index: 1 }, STarget::TypeArgument { target_type: 0x4A, at: 0, index: 2 }, STarget::TypeArgument { target_type: 0x4B, at: last, index: 3 },
+	];
+	for (i, t) in targets.into_iter().enumerate() {
+		v.push(tann(t, PATHS[i % PATHS.len()].to_vec()));
+	}
+	v
+}
+
+pub fn vtypes(n: Idx) -> Vec<SVType> {
+	vec![SVType::Top, SVType::Integer, SVType::Float, SVType::Long, SVType::Double, SVType::Null, SVType::UninitializedThis, SVType::Object(js("p/T")), SVType::Object(js("[Lp/T;")), SVType::Uninitialized(0), SVType::Uninitialized(n - 1)]
+}
+
+fn unknowns(tag: &str) -> Vec<SUnknown> {
+	vec![SUnknown { name: js(&format!("x.Custom{tag}")), bytes: vec![] }, SUnknown { name: js(&format!("x.Custom{tag}2")), bytes: vec![0, 1, 2, 0xff, 0xca, 0xfe] }]
+}
+
+/// A method of `pad + body` instructions with every code-level table and all frame kinds; `gap` nops
+/// between the framed instructions lets offset deltas cross the 63/64 boundary.
+pub fn rich_code(gap: usize) -> SCode {
+	let mut insns = vec![
+		SInsn::New(js("p/T")),
+		SInsn::Load(LvKind::I, 1),
+		SInsn::Branch(op::IFEQ, 4),
+		SInsn::Simple(op::NOP),
+		SInsn::Load(LvKind::A, 0),
+	];
+	for _ in 0..gap {
+		insns.push(SInsn::Simple(op::NOP));
+	}
+	insns.extend([
+		SInsn::TableSwitch { default: 0, low: 0, targets: vec![1, 4] },
+		SInsn::Branch(op::GOTO, 1),
+		SInsn::Simple(op::ATHROW),
+		RETURN,
+	]);
+	let n = insns.len() as Idx;
+	let vt = vtypes(n);
+	let mut frames = vec![
+		(0, SFrame::Same),
+		(1, SFrame::SameLocals1(vt[7].clone())),
+		(2, SFrame::Chop(1)),
+		(3, SFrame::Chop(3)),
+		(4, SFrame::Append(vt[0..1].to_vec())),
+		(5 + gap as Idx, SFrame::Append(vt[1..4].to_vec())),
+		(6 + gap as Idx, SFrame::Full { locals: vt.clone(), stack: vt.iter().rev().cloned().collect() }),
+		(7 + gap as Idx, SFrame::SameLocals1(SVType::Uninitialized(0))),
+		(8 + gap as Idx, SFrame::Full { locals: vec![], stack: vec![] }),
+	];
+	frames.retain(|(i, _)| *i < n);
+	SCode {
+		max_stack: 65535,
+		max_locals: 0,
+		insns,
+		exceptions: vec![
+			SExceptionEntry { start: 0, end: n, handler: n - 2, catch: None },
+			SExceptionEntry { start: 1, end: 2, handler: 0, catch: Some(js("java/lang/Exception")) },
+			SExceptionEntry { start: 0, end: 1, handler: n - 1, catch: Some(js("[Lp/T;")) },
+		],
+		line_numbers: vec![(0, 1), (0, 65535), (2, 7), (n - 1, 0)],
+		local_vars: vec![
+			SLocalVar { start: 0, end: n, name: js("this"), ty: js("Lp/T;"), index: 0 },
+			SLocalVar { start: 1, end: 1, name: js("empty"), ty: js("I"), index: 65535 },
+			SLocalVar { start: 2, end: n - 1, name: js("é"), ty: js("[J"), index: 256 },
+		],
+		local_var_types: vec![
+			SLocalVar { start: 0, end: n, name: js("this"), ty: js("Lp/T<TX;>;"), index: 0 },
+			SLocalVar { start: n - 1, end: n, name: js("only_generic"), ty: js("TX;"), index: 5 },
+		],
+		frames,
+		visible_type: code_type_annotations(n),
+		invisible_type: code_type_annotations(n).into_iter().rev().take(3).collect(),
+		unknown: unknowns("Code"),
+	}
+}
+
+/// The kitchen-sink class: every attribute at every level. `variant` varies table sizes (0, 1, 2 entries …).
+pub fn kitchen_sink(variant: usize) -> SClass {
+	let k = variant % 3; // entries per table
+	let mut c = skeleton("p/Sink");
+	c.version = (61, 0);
+	c.access = 0x0001 | 0x0020 | 0x0400 | 0x1000;
+	c.interfaces = (0..k).map(|i| js(&format!("p/I{i}"))).collect();
+	c.synthetic = variant % 2 == 0;
+	c.deprecated = variant % 2 == 1;
+	c.signature = Some(js("<X:Ljava/lang/Object;>Ljava/lang/Object;"));
+	c.source_file = Some(js("Sink.java"));
+	c.source_debug_extension = Some(JS("SMAP\nSink.java\nü".encode_utf16().chain([0u16, 0xd83d, 0xde00]).collect()));
+	c.inner_classes = Some((0..k).map(|i| SInnerClass { inner: js(&format!("p/Sink$In{i}")), outer: if i == 0 { Some(js("p/Sink")) } else { None }, name: if i == 0 { Some(js(&format!("In{i}"))) } else { None }, flags: [0x0009, 0x761F][i % 2] }).collect());
+	c.enclosing_method = Some((js("p/Outer"), if k > 0 { Some((js("run"), js("()V"))) } else { None }));
+	c.annotations = SAnnotations { visible: annotations(k), invisible: annotations(k + 1), visible_type: class_type_annotations().into_iter().take(k * 4).collect(), invisible_type: class_type_annotations().into_iter().rev().take(k + 1).collect() };
+	c.nest_host = Some(js("p/Host"));
+	c.nest_members = Some((0..k).map(|i| js(&format!("p/Sink$N{i}"))).collect());
+	c.permitted_subclasses = Some((0..k).map(|i| js(&format!("p/Sub{i}"))).collect());
+	c.record = Some((0..k).map(|i| SRecordComponent {
+		name: js(&format!("rc{i}")),
+		desc: js(["I", "Lp/T;"][i % 2]),
+		signature: if i == 0 { Some(js("TX;")) } else { None },
+		annotations: SAnnotations { visible: annotations(i), invisible: annotations(1), visible_type: field_type_annotations().into_iter().take(i + 1).collect(), invisible_type: vec![] },
+		unknown: if i == 0 { unknowns("Rec") } else { vec![] },
+	}).collect());
+	c.unknown = unknowns("Class");
+	// fields
+	let cvs = [SConst::Int(-7), SConst::Float(1.5f32.to_bits()), SConst::Long(i64::MIN), SConst::Double(f64::NAN.to_bits()), SConst::Str(js("cv"))];
+	let descs = ["I", "F", "J", "D", "Ljava/lang/String;"];
+	for (i, cv) in cvs.iter().enumerate() {
+		c.fields.push(SField {
+			access: [0x0019, 0x50DF & !0x0006, 0x0002, 0x0004 | 0x0040, 0x0080 | 0x1000][i],
+			name: js(&format!("f{i}")),
+			desc: js(descs[i]),
+			constant_value: Some(cv.clone()),
+			synthetic: i == 1,
+			deprecated: i == 2,
+			signature: if i == 4 { Some(js("TX;")) } else { None },
+			annotations: if i == 0 { SAnnotations { visible: annotations(2), invisible: annotations(1), visible_type: field_type_annotations(), invisible_type: field_type_annotations().into_iter().take(1).collect() } } else { Default::default() },
+			unknown: if i == 3 { unknowns("Field") } else { vec![] },
+		});
+	}
+	c.fields.push(SField { access: 0, name: js("same"), desc: js("I"), ..Default::default() });
+	c.fields.push(SField { access: 0, name: js("same"), desc: js("J"), ..Default::default() });
+	// methods
+	let mut m = method_with("rich", "(ILp/T;)V", vec![]);
+	m.code = Some(rich_code([0, 60, 70][k]));
+	m.access = 0x1DFF & !(0x0400 | 0x0100 | 0x0006);
+	m.exceptions = Some((0..k).map(|i| js(&format!("p/Ex{i}"))).collect());
+	m.synthetic = true;
+	m.deprecated = true;
+	m.signature = Some(js("<Y:Ljava/lang/Object;>(ITY;)V"));
+	m.annotations = SAnnotations { visible: annotations(1), invisible: annotations(2), visible_type: method_type_annotations(), invisible_type: method_type_annotations().into_iter().take(k).collect() };
+	m.visible_param_annotations = Some(vec![annotations(1), vec![]]);
+	m.invisible_param_annotations = Some(vec![vec![], annotations(2)]);
+	m.parameters = Some(vec![(Some(js("a")), 0x0010), (None, 0x9010)]);
+	m.unknown = unknowns("Method");
+	c.methods.push(m);
+	let mut d = SMethod { access: 0x0401, name: js("value"), desc: js("()I"), ..Default::default() };
+	d.annotation_default = Some(element_values(2)[(14 + variant) % 18].clone());
+	c.methods.push(d);
+	for (i, ev) in element_values(1).into_iter().enumerate().take(6 * k) {
+		c.methods.push(SMethod { access: 0x0401, name: js(&format!("dflt{i}")), desc: js("()Ljava/lang/Object;"), annotation_default: Some(ev), ..Default::default() });
+	}
+	c.methods.push(SMethod { access: 0x0101, name: js("nat"), desc: js("()V"), parameters: Some(vec![]), exceptions: Some(vec![]), ..Default::default() });
+	c.methods.push(method_with("<clinit>", "()V", insn_samples().into_iter().filter(|i| !matches!(i, SInsn::Branch(..) | SInsn::TableSwitch { .. } | SInsn::LookupSwitch { .. })).chain([RETURN]).collect()));
+	c.methods.push(method_with("overload", "(I)V", vec![RETURN]));
+	c.methods.push(method_with("overload", "(J)V", variable_form_method()));
+	c
+}
+
+pub fn module_class(open: bool, k: usize) -> SClass {
+	let mut c = SClass { version: (61, 0), access: 0x8000, this_class: js("module-info"), super_class: None, ..Default::default() };
+	c.module = Some(SModule {
+		name: js("m.main"),
+		flags: if open { 0x0020 } else { 0 } | if k == 2 { 0x1000 | 0x8000 } else { 0 },
+		version: if k > 0 { Some(js("1.2-beta")) } else { None },
+		requires: (0..=k).map(|i| (js(["java.base", "m.a", "m.b"][i]), [0x8000, 0x0020 | 0x0040, 0x1000][i], if i == 1 { Some(js("9")) } else { None })).collect(),
+		exports: (0..k).map(|i| (js(&format!("p/e{i}")), [0, 0x9000][i % 2], (0..i).map(|j| js(&format!("m.t{j}"))).collect())).collect(),
+		opens: (0..k).map(|i| (js(&format!("p/o{i}")), [0x1000, 0x8000][i % 2], (0..=i).map(|j| js(&format!("m.t{j}"))).collect())).collect(),
+		uses: (0..k).map(|i| js(&format!("p/Svc{i}"))).collect(),
+		provides: (0..k).map(|i| (js(&format!("p/Svc{i}")), (0..=i).map(|j| js(&format!("p/Impl{j}"))).collect())).collect(),
+	});
+	c.module_packages = Some((0..k).map(|i| js(&format!("p/e{i}"))).collect());
+	c.module_main_class = if k > 0 { Some(js("p/Main")) } else { None };
+	c.source_file = Some(js("module-info.java"));
+	c
+}
+
+/// (major, minor) pairs the property names: 45.3 and every n.0 for 46..=67, plus preview minors
+pub fn versions() -> Vec<(u16, u16)> {
+	let mut v = vec![(45, 3), (45, 0)];
+	for n in 46..=67 {
+		v.push((n, 0));
+	}
+	for n in 56..=66 {
+		v.push((n, 65535));
+	}
+	v
+}
+
+/// strings at the modified-UTF-8 boundaries
+pub fn utf8_samples() -> Vec<JS> {
+	vec![
+		JS(vec![]),
+		js("plain"),
+		JS(vec![0]),
+		JS(vec![0x41, 0, 0x42]),
+		JS(vec![0x7f]), JS(vec![0x80]), JS(vec![0x7ff]), JS(vec![0x800]), JS(vec![0xffff]),
+		JS(vec![0xd83d, 0xde00]),
+		JS(vec![0xd800]), JS(vec![0xdfff]), JS(vec![0xdc00, 0xd800]),
+		JS(vec![0x41; 65535]),
+		JS(vec![0x800; 21845]),
+	]
+}
+
+/// encodings explored for every generated class in the cheap sweeps
+pub fn basic_encodings() -> Vec<Encoding> {
+	vec![
+		Encoding::default(),
+		Encoding { default_form: 1, pool: PoolOrder::Reversed, attr_order: AttrOrder::Reversed, ..Default::default() },
+		Encoding { default_form: 2, pool: PoolOrder::Utf8First, attr_order: AttrOrder::Rotated(1), split_tables: true, frames_extended: true, ..Default::default() },
+		Encoding { pool: PoolOrder::Utf8Last, pads: vec![(0, Pad::Long(1)), (3, Pad::Double(2)), (7, Pad::Utf8("pad".into())), (100000, Pad::Class("p/Unused".into()))], attr_order: AttrOrder::Rotated(2), ..Default::default() },
+	]
+}
+
+/// brings the order-free tables of a hand-built model into the canonical (sorted) form the parser produces
+pub fn normalize(c: &mut SClass) {
+	c.unknown.sort();
+	for f in &mut c.fields {
+		f.unknown.sort();
+	}
+	for m in &mut c.methods {
+		m.unknown.sort();
+		if let Some(code) = &mut m.code {
+			code.line_numbers.sort();
+			code.local_vars.sort();
+			code.local_var_types.sort();
+			code.unknown.sort();
+		}
+	}
+	if let Some(r) = &mut c.record {
+		for rc in r {
+			rc.unknown.sort();
+		}
+	}
+}
